@@ -13,7 +13,7 @@ VERIF = core.VERIF
 sys.path.insert(0, os.path.join(VERIF, 'gen'))
 import units_c15  # noqa: E402
 
-RULE = ('generated matrix: source value type -> stored type (same type; int<->float; signed<->unsigned; u8->bool; bool->u8; enum<->underlying; int -> trivially copyable class with converting constructor; trivially copyable class with conversion operator -> int; const char* -> std::string; copy/move-counting class; move-only class) x source form (vector&, const vector&, vector&&, list&, list&&, deque&, std::array&, C array, lazily generated forward range, pointer, vector iterators, list/deque iterator, counting input iterator, move_iterator of vector iterator / pointer / list iterator) x parameter kind (FixedSize, VaryingSize); rapidcheck generates the source values and lengths 0..9 per cell; oracle: stored[i] == static_cast<T>(source[i]) computed independently per item (bool compared by object representation), lvalue sources unmodified and each item copied exactly once, rvalue ranges / move_iterators moved from exactly once per item, the counting input iterator dereferenced exactly as often as the parameter holds objects, UBSan on. NON-TRIVIAL: source and stored type differ, have equal size and are trivially copyable (the memcpy fast path is selectable) and the length is >= 2. DISTINCT: hash of (cell, key vector).')
+RULE = ('generated matrix: source value type -> stored type (same type; int<->float; signed<->unsigned; u8->bool; bool->u8; enum<->underlying; int -> trivially copyable class with converting constructor; trivially copyable class with conversion operator -> int; const char* -> std::string; copy/move-counting class; move-only class; trivially copyable class whose ref-qualified conversion operators tell whether the item was passed as mutable lvalue, const lvalue or rvalue) x source form (vector&, const vector&, vector&&, list&, list&&, deque&, std::array&, C array, lazily generated forward range, pointer, vector iterators, list/deque iterator, counting input iterator, move_iterator of vector iterator / pointer / list iterator) x parameter kind (FixedSize, VaryingSize); rapidcheck generates the source values and lengths 0..9 per cell; oracle: stored[i] == static_cast<T>(source[i]) computed independently per item (bool compared by object representation), lvalue sources unmodified and each item copied exactly once, rvalue ranges / move_iterators moved from exactly once per item, the counting input iterator dereferenced exactly as often as the parameter holds objects, UBSan on. NON-TRIVIAL: source and stored type differ, have equal size and are trivially copyable (the memcpy fast path is selectable) and the length is >= 2. DISTINCT: hash of (cell, key vector).')
 
 
 def build(cells, tag):
